@@ -2,6 +2,7 @@ package checks
 
 import (
 	"encoding/json"
+	"fmt"
 	"os"
 	"path/filepath"
 	"testing"
@@ -84,6 +85,26 @@ func TestMakeReplays(t *testing.T) {
 	write("C09", "c09", "simplified-aggregate-field", "select (count(1) > 100) | (1 = 1) returned one row per pair", &c09Case{Stmt: &lib.Stmt{Kind: "select", Fields: []lib.SelField{{E: lib.Bin("|", lib.Bin(">", lib.Call("count", lib.Int(1)), lib.Int(100)), lib.Bin("=", lib.Int(1), lib.Int(1)))}}, Where: lib.Bin("!=", lib.Key(), lib.Str("zz"))}, Pairs: abc, Batch: 2})
 	collide := &lib.Stmt{Kind: "select", Fields: []lib.SelField{{E: lib.Key()}, {E: lib.Call("int", lib.Value()), Alias: "a-k"}, {E: lib.Bin("*", lib.Call("int", lib.Value()), lib.Int(10)), Alias: "a"}}, Where: lib.Bin("&", lib.Bin(">", lib.Ref("a-k", lib.TyInt), lib.Int(100)), lib.Bin(">", lib.Ref("a", lib.TyInt), lib.Int(100)))}
 	write("C05", "c05", "name-key-collision", "names a-k and a over keys 1 and k-1 shared one chunk cache entry", &c05Case{Stmt: collide, Pairs: []lib.Pair{{K: "1", V: "1"}, {K: "2", V: "2"}, {K: "k-1", V: "300"}, {K: "k-2", V: "400"}}, Batch: 2})
+
+	// ---- repairs prompted by the audit round ----------------------------------------
+	dynPairs := []lib.Pair{{K: "a1", V: `{"m": "x", "n": "x"}`}, {K: "a2", V: `{"m": "y", "n": "z"}`}, {K: "a3", V: `{"m": 1, "n": 1}`}, {K: "a4", V: `{"m": 2, "n": 3}`}}
+	write("C05", "c05dyn", "equal-kind-from-first-row", "cache off: batch = over a chunk of text and number rows failed, cache on it answered", &c05DynCase{Query: "select key, json(value)['m'] = json(value)['n'] as same where same & key ^= 'a'", Pairs: dynPairs, Batch: 2})
+	write("C06", "c06chain", "name-chain-planning", "a chain of 40 named fields took 2^40 steps to plan", &c06Case{Query: c06Chain(40, "", "where key != ''"), Pairs: abc})
+	chainGroups := "a0"
+	for i := 1; i <= 30; i++ {
+		chainGroups += fmt.Sprintf(", a%d", i)
+	}
+	write("C06", "c06chain", "name-chain-row-aggregation", "row-at-a-time aggregation re-evaluated a chain of 30 named fields 2^30 times per pair", &c06Case{Query: c06Chain(30, "count(1) as c, ", "where a30 >= 0 | key != '' group by "+chainGroups), Pairs: abc})
+	write("C04", "c04", "reassociated-floats", "(float(value) + 0.1) + 0.2 was rewritten to float(value) + 0.30000000000000004", &c04Case{E: lib.Bin("+", lib.Bin("+", lib.Call("float", lib.Value()), lib.Float("0.1")), lib.Float("0.2")), W: lib.Bin("=", lib.Int(1), lib.Int(1)), Pairs: []lib.Pair{{K: "a", V: "2"}, {K: "b", V: "3"}}})
+	bare := &lib.Stmt{Kind: "select", Fields: []lib.SelField{{E: lib.Key(), Alias: "k"}, {E: lib.Ref("k", lib.TyText), Alias: "k2"}}, Where: lib.Bin("=", lib.Call("upper", lib.Ref("k2", lib.TyText)), lib.Str("AB"))}
+	write("C05", "c05", "field-that-is-only-a-name", "select key as k, k as k2 where upper(k2) = 'AB' returned nothing: k2 was the text k", &c05Case{Stmt: bare, Pairs: abc, Batch: 2})
+	write("C10", "c10", "list-first-element-numeric", "list(value, key)[1] over ('kk', '2.5') was the float 0", &c10Case{E: lib.Index(lib.Call("list", lib.Value(), lib.Key()), 1), K: "kk", V: "2.5", Fn: "list(text)[n]", Form: "row"})
+	nanPairs := []lib.Pair{{K: "a1", V: "2"}, {K: "a2", V: "NaN"}, {K: "a3", V: "1"}, {K: "b1", V: "5"}, {K: "b2", V: "4"}, {K: "c1", V: "NaN"}, {K: "c2", V: "7"}, {K: "d1", V: "6"}, {K: "e1", V: "0"}}
+	write("C07", "c07", "nan-scrambles-order", "order by float(value) with two NaN rows returned 1, 5, 6, 7, NaN, 4, 0, 2, NaN", &c07Case{Stmt: &lib.Stmt{Kind: "select", Fields: []lib.SelField{{E: lib.Key()}, {E: lib.Call("float", lib.Value()), Alias: "f"}}, Where: lib.Bin(">=", lib.Key(), lib.Str("a")), Order: []lib.OrderKey{{Name: "f"}}}, Pairs: nanPairs, Batch: 32})
+	groupVal := &lib.Stmt{Kind: "select", Fields: []lib.SelField{{E: lib.Key()}, {E: lib.Bin("+", lib.Call("strlen", lib.Key()), lib.Call("count", lib.Int(1))), Alias: "x"}}, Where: lib.Bin("!=", lib.Key(), lib.Str("zz")), Group: []string{"key"}}
+	write("C09", "c09", "group-value-in-aggregate-field", "select key, strlen(key) + count(1) .. group by key evaluated strlen(key) on an empty pair", &c09Case{Stmt: groupVal, Pairs: abc, Batch: 2})
+	write("C09", "c09", "aggregate-inside-scalar-call", "select str(count(1)) failed with Cannot find function count when it ran", &c09Case{Stmt: &lib.Stmt{Kind: "select", Fields: []lib.SelField{{E: lib.Call("str", lib.Call("count", lib.Int(1)))}}, Where: lib.Bin("!=", lib.Key(), lib.Str("zz"))}, Pairs: abc, Batch: 2})
+	write("C06", "c06", "buildexecutor-non-select", "BuildExecutor(\"put ('k', 'v')\") panicked", &c06Case{Query: "put ('k', 'v')", Pairs: abc})
 
 	write("C03", "c03", "limit-skip-boundary", "limit 2,2 with batch size 2 returned rows 0-1", &c03Case{Stmt: &lib.Stmt{Kind: "select", Star: true, Where: lib.Bin("!=", lib.Key(), lib.Str("zz")), Lim: &lib.Limit{Start: 2, Count: 2, Two: true}}, Pairs: abc, Batch: 2, Batch2: 32})
 	write("C03", "c03", "in-split-row", "'1' in split(value, ',') failed row at a time only", &c03Case{Stmt: &lib.Stmt{Kind: "select", Fields: []lib.SelField{{E: lib.Key()}, {E: lib.Call("split", lib.Value(), lib.Str(","))}}, Where: lib.InList(lib.Str("1"), lib.Call("split", lib.Value(), lib.Str(",")))}, Pairs: abc, Batch: 2, Batch2: 32})
